@@ -180,5 +180,7 @@ def check(ctx, run):
     ordering.r04_1(ctx, run, rule='R14.2/R04.1')
     # the key orders values of different kinds by their rank bytes: compare must order each pair of kinds the same way (R04.2)
     ordering.r04_2(ctx, run, rule='R14.2/R04.2')
+    # compare reads each operand at offsets measured on that operand (R04.8): the other half of "the key sorts as compare orders"
+    ordering.r04_8(ctx, run, rule='R14.10/R04.8')
     numcodec.r18_4(ctx, run, rule='R14.9/R18.4')
     return report.finish(run, level='other', explanation=EXPLANATION, assumptions=["A1: valid documents"])
